@@ -129,9 +129,9 @@ def ioHistory (isz : Nat) (size : Int × Int × Int) (css : List (Int × Int × 
       | ["w", b, v] =>
         match parseBox b, parseList parseNat v with
         | some b, some v =>
-          match Coords.write valid (Raw.encode isz) s ("k", b) v with
-          | .ok s' => go s' t ("ok" :: acc)
-          | .error _ => go s t ("offgrid" :: acc)
+          -- the history semantics the theorems are stated over (`runWrites`): a rejected write leaves the store as it was
+          go (Coords.runWrites valid (Raw.encode isz) s [(("k", b), v)]) t
+            ((match Coords.write valid (Raw.encode isz) s ("k", b) v with | .ok _ => "ok" | .error _ => "offgrid") :: acc)
         | _, _ => go s t ("bad" :: acc)
       | ["r", b] =>
         match parseBox b with
@@ -419,6 +419,17 @@ def handle (toks : List String) : String :=
       | .ok (v, t) => s!"ok {showNatList v} {showNatList t}"
       | .error _ => "err meshdata"
     | none => "bad-request"
+  | ["mesh-affine", m, t, verts, tris] =>
+    -- affine_transform_mesh over the integers: m = 9 entries row-major, t = 3, verts = 3 per vertex, tris = 3 per triangle
+    let rec triples {β} : List β → List (β × β × β)
+      | a :: b :: c :: r => (a, b, c) :: triples r
+      | _ => []
+    match parseList parseInt m, parseList parseInt t, parseList parseInt verts, parseList parseNat tris with
+    | some [a, b, c, d, e, f, g, h, i], some [tx, ty, tz], some vs, some ts =>
+      let (vs', ts') := Mesh.affineTransform (α := Int) ⟨a, b, c, d, e, f, g, h, i⟩ ⟨tx, ty, tz⟩
+        ((triples vs).map fun (x, y, z) => ⟨x, y, z⟩) (triples ts)
+      s!"ok {showIntList (vs'.flatMap fun v => [v.x, v.y, v.z])} {showNatList (ts'.flatMap fun (p, q, r) => [p, q, r])}"
+    | _, _, _, _ => "bad-request"
   | ["mesh-link", dir, label, nc] =>
     match parseNat label with
     | some l => Mesh.linkName dir l (nc == "1")
